@@ -141,3 +141,36 @@ package schema
 //@   property C05
 //@   requires r != nil
 //@   ensures old(r.domain) == nil ==> result == adSignatureDomain
+
+// The records handed to the envelope (C05): what is sealed / what was opened is exactly the payload held,
+// with the fixed codec unless one is set.
+//@ func (*advSignatureRecord).MarshalRecord
+//@   property C05
+//@   pure
+//@   requires r != nil
+//@   ensures result1 == nil && result0 == r.advID
+//@ func (*advSignatureRecord).UnmarshalRecord
+//@   property C05
+//@   requires r != nil
+//@   modifies r.advID
+//@   ensures result == nil && r.advID == buf
+//@ func (*epSignatureRecord).MarshalRecord
+//@   property C05
+//@   pure
+//@   requires r != nil
+//@   ensures result1 == nil && result0 == r.payload
+//@ func (*epSignatureRecord).UnmarshalRecord
+//@   property C05
+//@   requires r != nil
+//@   modifies r.payload
+//@   ensures result == nil && r.payload == buf
+//@ func (*advSignatureRecord).Codec
+//@   property C05
+//@   requires r != nil
+//@   ensures old(r.codec) != nil ==> result == old(r.codec)
+//@   ensures old(r.codec) == nil ==> content(result) == content(adSignatureCodec)
+//@ func (*epSignatureRecord).Codec
+//@   property C05
+//@   requires r != nil
+//@   ensures old(r.codec) != nil ==> result == old(r.codec)
+//@   ensures old(r.codec) == nil ==> content(result) == content(epSignatureCodec)
